@@ -320,7 +320,9 @@ fn plan_cases(out: &mut Out, depth: usize) {
                     trace.push("requires(a)".into());
                 }
                 3 => {
+                    // metadata set twice on the same Require: the value set last is the metadata
                     let mut r = Require::new(names[1]);
+                    r.metadata(toml::toml! { stale = true k = 0 }).unwrap();
                     r.metadata(md.clone()).unwrap();
                     b = b.requires(r);
                     g.1.push(json!({"name": names[1], "metadata": ["t", {"k": ["i", 1]}]}));
